@@ -86,10 +86,11 @@ theorem maintenance_adds_nothing (v : GC.Variant) (G : GC.Id → List GC.Id) (ro
 
 /-- Maintenance from a LONG-LIVED handle: every operation is given its own, arbitrary `view` of the packs (what
 `self.packs` returns in that process: cached `Pack` objects, possibly of files another process has removed since, in any
-order, followed by whatever a rescan finds).  Whether an operation returns or raises `PackFileDisappeared`, every
-reachable object that is present stays present — for any sequence of operations and views. -/
+order, followed by whatever a rescan finds) and an arbitrary set of objects of vanished-but-still-mapped packs that the
+reachability walk of `prune_unreachable_objects` can still read.  Whether an operation returns or raises
+`PackFileDisappeared`, every reachable object that is present stays present — for any sequence of operations and views. -/
 theorem maintenance_from_any_cache_preserves_reachable (v : GC.Variant) (G : GC.Id → List GC.Id) (roots : List GC.Id)
-    (fuel : Nat) (ops : List (List GC.Pack × GC.Op)) (s s' : GC.Store)
+    (fuel : Nat) (ops : List (List GC.Pack × List GC.Id × GC.Op)) (s s' : GC.Store)
     (h : GC.applyAllV v G roots fuel ops s = some s') (x : GC.Id)
     (hr : GC.Reach s G roots x) (hx : s.has x = true) : s'.has x = true :=
   GC.applyAllV_preserves_reachable h hr hx
